@@ -30,10 +30,42 @@ def sh(cmd, **kw):
     return subprocess.run(cmd, capture_output=True, text=True, **kw)
 
 
+SUITE = [False]
+
+
+def run_suite(wt: str) -> str:
+    """the pinned suite in the patched worktree: which baseline-passing tests no longer pass"""
+    import tempfile
+    import xml.etree.ElementTree as ET
+
+    b = json.load(open("/root/.vp/BASELINE.json"))
+    out = tempfile.mktemp(suffix=".xml")
+    cmd = b["cmd"].replace("<file>", out).replace("cd /repo", "cd " + wt)
+    subprocess.run(cmd, shell=True, stdout=subprocess.DEVNULL, stderr=subprocess.DEVNULL, env=dict(os.environ, PYTHONPATH=wt))
+    passed = set()
+    try:
+        for tc in ET.parse(out).getroot().iter("testcase"):
+            if not any(ch.tag in ("failure", "error", "skipped") for ch in tc):
+                passed.add(f"{tc.get('classname')}::{tc.get('name')}")
+    finally:
+        if os.path.exists(out):
+            os.remove(out)
+    stable = set(b["stable_pass"])
+    missing = sorted(stable - passed)
+    return f"baseline {len(stable)}, passing with the patch {len(passed)}, baseline tests no longer passing {len(missing)}" + (f" (first: {missing[0]})" if missing else "")
+
+
 def evaluate(name: str, record: bool, tier: str, workers: int) -> dict:
-    d = os.path.join(VERIF, "seeded", name)
-    meta = json.load(open(os.path.join(d, "meta.json")))
-    prop = meta.get("caught_by_check") or meta.get("property") or name.split("-")[0]
+    if os.path.isdir(name) and os.path.exists(os.path.join(name, "patch.diff")):
+        # an unrecorded candidate: <dir>/patch.diff [+ demo.py, meta.json]; never recorded
+        d, record = os.path.abspath(name), False
+        name = os.path.basename(os.path.dirname(d + "/")) + "_" + os.path.basename(d.rstrip("/"))
+        if not os.path.exists(os.path.join(d, "demo.py")):
+            open(os.path.join(d, "demo.py"), "w").write("print('PASS')\n")
+    else:
+        d = os.path.join(VERIF, "seeded", name)
+    meta = json.load(open(os.path.join(d, "meta.json"))) if os.path.exists(os.path.join(d, "meta.json")) else {}
+    prop = os.environ.get("SEED_CHECK") or meta.get("caught_by_check") or meta.get("property") or name.split("-")[0]
     base = os.path.join(SCRATCH, name)
     wt, lean, out = os.path.join(base, "wt"), os.path.join(base, "lean"), os.path.join(base, "out")
     sh(["git", "-C", "/repo", "worktree", "remove", "--force", wt])
@@ -61,6 +93,10 @@ def evaluate(name: str, record: bool, tier: str, workers: int) -> dict:
         lines = [ln for ln in (c2.stdout + c2.stderr).split("\n") if "fail" in ln.lower() or "pass" in ln.lower()]
         patched = (lines[0] if lines else "")[:200]
         res["demo_clean_rc"], res["demo_patched_rc"] = c.returncode, c2.returncode
+        suite = None
+        if SUITE[0]:
+            suite = run_suite(wt)
+            res["suite"] = suite
         cenv = dict(os.environ, VERIF_REPO=wt, VERIF_LEAN_DIR=lean, VERIF_OUT=out, VERIF_WORKERS=str(workers))
         k = sh([os.path.join(VERIF, "check"), prop, "--tier", tier], env=cenv, timeout=3600)
         outl = [ln for ln in k.stdout.split("\n") if ln and not ln.startswith("KNOWN")]
@@ -93,6 +129,7 @@ def evaluate(name: str, record: bool, tier: str, workers: int) -> dict:
                 "demo_with_patch": patched,
                 "ran": ["REPO_UNDER_TEST=<worktree> /venv/bin/python demo.py (clean, then patched)",
                         f"VERIF_REPO=<patched worktree> ./check {prop} --tier {tier}"],
+                **({"pinned_suite_with_patch": suite} if suite is not None else ({"pinned_suite_with_patch": meta.get("confirmed", {}).get("pinned_suite_with_patch")} if meta.get("confirmed", {}).get("pinned_suite_with_patch") else {})),
                 "check_output": check,
                 "detected": detected,
                 "concrete_replay": concrete,
@@ -120,6 +157,8 @@ def main() -> int:
             j = int(args[i + 1]); i += 2; continue
         if a == "--no-record":
             record = False; i += 1; continue
+        if a == "--suite":
+            SUITE[0] = True; i += 1; continue
         if a == "--thorough":
             tier = "thorough"; i += 1; continue
         if a == "all":
@@ -129,7 +168,7 @@ def main() -> int:
                 m = json.load(open(os.path.join(VERIF, "seeded", n, "meta.json"))).get("confirmed", {})
                 if not (m.get("detected") and m.get("concrete_replay")):
                     names.append(n)
-        elif a in all_seeds:
+        elif a in all_seeds or os.path.isdir(a):
             names.append(a)
         else:
             names += [n for n in all_seeds if n.startswith(a + "-")]
@@ -149,7 +188,7 @@ def main() -> int:
             status = "concrete replay" if r["concrete"] else ("broken obligation only" if r["detected"] else "MISSED")
             demo_ok = r["clean"].upper().startswith("PASS") or "PASS" in r["clean"].upper()
             flag = "" if (demo_ok and "FAIL" in r["patched"].upper()) else f"  [demo clean={r['clean']!r} patched={r['patched']!r}]"
-            print(f"{r['name']} ({r['prop']}): {status}; rc={r['rc']}; {r['wall']}s{flag}", flush=True)
+            print(f"{r['name']} ({r['prop']}): {status}; rc={r['rc']}; {r['wall']}s{flag}" + (f"  suite: {r['suite']}" if r.get("suite") else ""), flush=True)
             if r.get("stderr_tail"):
                 print("   stderr:", r["stderr_tail"].replace("\n", "\n   "), flush=True)
     return 1 if bad else 0
